@@ -31,13 +31,14 @@ theorem bind_eq_ok {α β} {x : Out α} {f : α → Out β} {b : β} (h : (x >>=
   | panic w => cases h
   | diverge => cases h
 
-theorem bump_ok (mode : Mode) (it it' m : Nat) (hm : m + 1 < 2 ^ 32) (hit : it ≤ m)
-    (h : bumpIteration mode it = .ok it') : it' = it + 1 := by
-  unfold bumpIteration at h
-  rw [if_pos (by omega)] at h
-  cases h; rfl
+theorem saturatingInc_lt (it m : Nat) (hm : m < 2 ^ 32) (hit : it < m) : saturatingInc it = it + 1 := by
+  unfold saturatingInc
+  rw [if_pos (by omega)]
 
-theorem overLimit_false (m it : Nat) (h : overLimit (some m) it = false) : it ≤ m := by
+theorem saturatingInc_le (it : Nat) : saturatingInc it ≤ it + 1 := by
+  unfold saturatingInc; split <;> omega
+
+theorem overLimit_false (m it : Nat) (h : overLimit (some m) it = false) : it < m := by
   simp [overLimit] at h; exact h
 
 /-- the bound a continuation must satisfy / the loop satisfies (limit `m`) -/
@@ -74,7 +75,7 @@ theorem afterOp_bound (m : Nat) (k) (hk : Bounded m k) (s : Eval) (res : OpResul
     cases h
     refine ⟨rfl, ?_, ?_, ?_⟩ <;> simp only [] <;> omega
 
-theorem loopBody_bound (m : Nat) (hm : m + 1 < 2 ^ 32) (k) (hk : Bounded m k) : Bounded m (loopBody k) := by
+theorem loopBody_bound (m : Nat) (hm : m < 2 ^ 32) (k) (hk : Bounded m k) : Bounded m (loopBody k) := by
   intro s r s' hmax hit h
   unfold loopBody at h
   split at h
@@ -82,20 +83,18 @@ theorem loopBody_bound (m : Nat) (hm : m + 1 < 2 ^ 32) (k) (hk : Bounded m k) : 
     cases h2
     exact ⟨rfl, Nat.le_refl _, hit, Nat.le_refl _⟩
   · next mm heq =>
-    obtain ⟨it', hb, h⟩ := bind_eq_ok h
-    have hit' := bump_ok _ _ _ m hm hit hb
-    simp only [] at h
     split at h
     · cases h
     · next hol =>
       rw [hmax] at hol
-      have hle : it' ≤ m := overLimit_false m it' hol
+      have hlt : s.iteration < m := overLimit_false m _ hol
+      have hinc := saturatingInc_lt s.iteration m hm hlt
       obtain ⟨⟨res, m2⟩, _, h⟩ := bind_eq_ok h
-      have := afterOp_bound m k hk _ res m2 r s' (by simpa using hmax) (by simpa using hle) h
-      simp only [] at this
+      have := afterOp_bound m k hk _ res m2 r s' (by simpa using hmax) (by simp only [hinc]; omega) h
+      simp only [hinc] at this
       refine ⟨this.1, ?_, ?_, ?_⟩ <;> omega
 
-theorem evalInternal_bound (m : Nat) (hm : m + 1 < 2 ^ 32) (fuel : Nat) : Bounded m (evaluateInternal fuel) := by
+theorem evalInternal_bound (m : Nat) (hm : m < 2 ^ 32) (fuel : Nat) : Bounded m (evaluateInternal fuel) := by
   induction fuel with
   | zero => intro s r s' _ _ h; simp [evaluateInternal] at h
   | succ fuel ih => exact loopBody_bound m hm _ ih
@@ -129,13 +128,13 @@ theorem bitwise_normal (f) (a b : Value) (mask : Nat) : (bitwise f a b mask).Nor
   split
   · trivial
   · exact bind_normal _ _ (toU64_normal _ _) (fun _ => bind_normal _ _ (toU64_normal _ _) (fun _ => fromU64_normal _ _))
-theorem shiftLength_normal (v : Value) : v.shiftLength.Normal := by unfold shiftLength; norm_tac
+theorem shiftLength_normal (v : Value) (mask : Nat) : (v.shiftLength mask).Normal := by unfold shiftLength; norm_tac
 theorem shl_normal (a b : Value) (mask : Nat) : (a.shl b mask).Normal := by
-  unfold shl; refine bind_normal _ _ (shiftLength_normal _) (fun _ => ?_); norm_tac
+  unfold shl; refine bind_normal _ _ (shiftLength_normal _ _) (fun _ => ?_); norm_tac
 theorem shr_normal (a b : Value) (mask : Nat) : (a.shr b mask).Normal := by
-  unfold shr; refine bind_normal _ _ (shiftLength_normal _) (fun _ => ?_); norm_tac
+  unfold shr; refine bind_normal _ _ (shiftLength_normal _ _) (fun _ => ?_); norm_tac
 theorem shra_normal (a b : Value) (mask : Nat) : (a.shra b mask).Normal := by
-  unfold shra; refine bind_normal _ _ (shiftLength_normal _) (fun _ => ?_); norm_tac
+  unfold shra; refine bind_normal _ _ (shiftLength_normal _ _) (fun _ => ?_); norm_tac
 theorem compare_normal (ri rf32 rf64) (a b : Value) (mask : Nat) : (compare ri rf32 rf64 a b mask).Normal := by
   unfold compare; norm_tac
 theorem parse_normal (e : Endian) (t : ValueType) (bs : Bytes) : (Value.parse e t bs).Normal := by
@@ -222,9 +221,9 @@ theorem afterComplete_normal (c : Config) (l : Location) (m : Mach) : (afterComp
   · refine bind_normal _ _ (_root_.parse_normal _ _ _) (fun ⟨op, _⟩ => ?_)
     cases op <;> ev_norm
 
-/-- with a limit `m` (and no `u32` wrap: `m + 1 < 2^32`) and `m + 2` fuel counted from the current
-iteration, `evaluate_internal` returns: no panic, no fuel exhaustion -/
-theorem evalInternal_terminates (m : Nat) (hm : m + 1 < 2 ^ 32) :
+/-- with a limit `m` (a `u32`) and `m + 2` fuel counted from the current iteration,
+`evaluate_internal` returns: no panic, no fuel exhaustion -/
+theorem evalInternal_terminates (m : Nat) (hm : m < 2 ^ 32) :
     ∀ (fuel : Nat) (s : Eval), s.cfg.maxIterations = some m → s.iteration ≤ m →
       m + 2 ≤ fuel + s.iteration → (evaluateInternal fuel s).Normal := by
   intro fuel
@@ -237,26 +236,23 @@ theorem evalInternal_terminates (m : Nat) (hm : m + 1 < 2 ^ 32) :
     split
     · exact bind_normal _ _ (finish_normal _ _) (fun _ => trivial)
     · next mm heq =>
-      have hb : bumpIteration s.cfg.mode s.iteration = .ok (s.iteration + 1) := by
-        unfold bumpIteration; rw [if_pos (by omega)]
-      rw [hb]
-      simp only [Out.bind_ok]
       split
       · trivial
       · next hol =>
         rw [hmax] at hol
-        have hle : s.iteration + 1 ≤ m := overLimit_false m _ hol
+        have hlt : s.iteration < m := overLimit_false m _ hol
+        have hinc := saturatingInc_lt s.iteration m hm hlt
         refine bind_normal _ _ (evaluateOneOperation_normal _ _) (fun ⟨res, m2⟩ => ?_)
         cases res with
-        | piece => exact ih _ (by simpa using hmax) (by simpa using hle) (by simp only []; omega)
+        | piece => exact ih _ (by simpa using hmax) (by simp only [hinc]; omega) (by simp only [hinc]; omega)
         | incomplete =>
           simp only [afterOp]
           split
           · trivial
-          · exact ih _ (by simpa using hmax) (by simpa using hle) (by simp only []; omega)
+          · exact ih _ (by simpa using hmax) (by simp only [hinc]; omega) (by simp only [hinc]; omega)
         | complete loc =>
           refine bind_normal _ _ (afterComplete_normal _ _ _) (fun ⟨m3, extra⟩ => ?_)
-          exact ih _ (by simpa using hmax) (by simpa using hle) (by simp only []; omega)
+          exact ih _ (by simpa using hmax) (by simp only [hinc]; omega) (by simp only [hinc]; omega)
         | waiting w rq => trivial
 
 end Gimli.Eval
